@@ -8,7 +8,8 @@ use crate::scenario::*;
 
 pub const NAME_POOL: &[&str] = &[
     "a", "b", "c", "aa", "ab", "Ab", "A", ".h", "a.b", "a b", "é", "日", "a*b", "[a]", "{a}",
-    "a,b", "a\nb", "b.txt", "x.txt", "B", "a\\b",
+    "a,b", "a\nb", "b.txt", "x.txt", "B", "a\\b", "1", "É", "-a", "a ", "~", "a:b", "e\u{301}",
+    "aaaaaaaaaaaaaaaaaaaaaaaaaaaaaaaaaaaaaaaaaaaaaaaaaaaaaaaaaaaaaaaaaaaaaaaaaaaaaaaaaaaaaaaaaaaaaaaaaaaaaaaaaaaaaaaaaaaaaaaaaaaaaaaa",
 ];
 
 #[derive(Clone, Copy, Debug, PartialEq, Eq)]
@@ -320,7 +321,14 @@ impl<'a> Gen<'a> {
             9 => {
                 let flipped: String = name
                     .chars()
-                    .map(|c| if c.is_lowercase() { c.to_ascii_uppercase() } else { c.to_ascii_lowercase() })
+                    .flat_map(|c| {
+                        if c.is_lowercase() {
+                            c.to_uppercase().collect::<Vec<char>>()
+                        }
+                        else {
+                            c.to_lowercase().collect::<Vec<char>>()
+                        }
+                    })
                     .collect();
                 if self.rng.chance(1, 2) {
                     format!("(?i){}", esc(&flipped))
